@@ -58,7 +58,8 @@ def runC12 (op : String) (j : Json) : R Json := do
       ("channel_probe", jNats (C12.channelProbes maps)),
       ("positions", jList jPairI (C12.mergePositions pos)),
       ("templates", jList (jList jInts) (C12.mergeTemplates ts)),
-      ("pc_ind", jList jNats (C12.shiftTables pcInd (C12.chanOffsets maps))),
+      ("channel_index_offsets", jNats (C12.chanIndexOffsets maps)),
+      ("pc_ind", jList jNats (C12.mergePcInd maps pcInd)),
       ("tf_ind", jList jNats (C12.shiftTables tfInd toffs)),
       ("whitening", jList jInts (C12.blockDiag wm)),
       ("similar", jList jInts (C12.blockDiag sim)),
